@@ -8,3 +8,4 @@ mkdir -p bin scratch
 go build -o bin/vinstr ./cmd/vinstr
 bin/vinstr -repo /repo -out scratch/ov-base -mode base
 go build -tags verif -overlay scratch/ov-base/overlay.json -o bin/vcheck ./cmd/vcheck
+go build -tags verif -overlay scratch/ov-base/overlay.json -o bin/vchild ./cmd/vchild
